@@ -11,4 +11,40 @@ CHECKS = {
         "note": "Theorems are about the hand-written model; the tie to lib.rs is the trace-replay correspondence (sampled) and the differential oracle solve(reqs) vs single-level solves of each cumulative subset on the real code. solve_inner is a parameter of the theorems.",
         "technique": "Lean 4 proof by induction over the level list (loop = fold; fold spec) + trace-replay correspondence + differential oracle",
     },
+    "C14": {
+        "text": "Machine-checked proof (Lean 4, every scalar type, every LU oracle) that the Newton loop reports fewer rounds than the cap, that any result other than DidNotConverge (in particular every success, bit for bit) is reproduced under every larger cap, that DidNotConverge under a cap implies DidNotConverge under every smaller cap, and that the public entry point inherits this for one priority level (several levels: under the stated hypothesis; the general statement is false of the code, known finding F11).",
+        "design_ref": "DESIGN.md §6 C14",
+        "note": "Model tied to newton.rs / lib.rs by trace replay across caps 0..200 and tolerances; the oracle runs the three relations of the statement on the real code. The tolerance clause (f64 convergence) is only searched, not proved.",
+        "technique": "Lean 4 proof by induction on the iteration cap (fuel monotonicity) + trace-replay correspondence + cap-sweep oracle on the real code",
+    },
+    "C01": {
+        "text": "Machine-checked proof (Lean 4, every scalar type) that the unsatisfied list of a successful result is exactly the list of caller positions of the attempted requests whose own error measure fails the EPSILON threshold at the returned coordinates; what each error measure means geometrically is proved over the reals (Ezpz/Real) and, for the f64 code, checked against an independent geometric specification of all 23 kinds on the real solver.",
+        "design_ref": "DESIGN.md §6 C01",
+        "note": "The f64 residual code is tied to the model by corr-kernels (all kinds, all aliasing patterns); the geometric oracle (harness/src/geom.rs) is written from the documented meaning, not from the kernels. PointArcCoincident's sweep is a known finding (F14).",
+        "technique": "Lean 4 proof (sweep = filter) + kernel/trace correspondence + independent geometric oracle on the real code",
+    },
+    "C06": {
+        "text": "Machine-checked proof (Lean 4, every scalar type) that in the model no Rust panic site is reachable at any priority level for any requests (aliased, out-of-range, duplicate ids), guesses and configuration — reads are of declared ids, reported Jacobian ids are declared in the same row so the scatter finds its cell, the row dimension is 1..3 — under the stated contracts of faer's LU and SVD; that the loop runs at most max_iterations rounds; and that every value of an Ok result is a guess or passed the finiteness guard.",
+        "design_ref": "DESIGN.md §6 C06",
+        "note": "Panic sites are explicit in the model and their reachability is what is proved; the model's read sets are tied to the code by the out-of-range stream of corr-kernels (panic iff model says none). Panics inside faer and allocation failure are outside the model; the malformed-input oracle runs the real entry points under catch_unwind.",
+        "technique": "Lean 4 proof (index discipline by case analysis over the 23 kinds; loop invariants) + kernel/trace correspondence incl. malformed stream + malformed-input oracle",
+    },
+    "C07": {
+        "text": "Machine-checked proof (Lean 4, every scalar type) that a successful result has one value per guess, that the unsatisfied list is strictly increasing and names attempted requests by caller position, that every warning names (by caller position) an attempted request of the right kind — lint: a LinesAtAngle(Other) request; Degenerate: a request whose evaluation raised the flag at a visited assignment —, that the solved priority is requested, and that failures carry the true sizes; values-by-id under the dense-ids hypothesis (false otherwise: known finding F5, with a proved negation witness).",
+        "design_ref": "DESIGN.md §6 C07",
+        "note": "Tied to lib.rs / solver.rs by trace replay of every report field; the oracle re-derives every index on the real code from recorded visited configurations.",
+        "technique": "Lean 4 proof (provenance of every report field through the loop) + trace-replay correspondence + report oracle on the real code",
+    },
+    "C10": {
+        "text": "The model is a pure function (determinism by rfl). Machine-checked proof (Lean 4, every scalar type) that the priority levels do not depend on the collection order of the priority set, that a failure of solve is the same failure of solve_analysis, that a successful analysis run yields the plain run's outcome, and that if the analysis succeeds at every attempted level the two entry points agree field by field (general statement false: known finding F10). Cross-process bit-reproducibility is sampled by a digest comparison between two fresh processes.",
+        "design_ref": "DESIGN.md §6 C10",
+        "note": "faer/libm reproducibility across processes is a runtime property: sampled, not proved. faer's feature list (no rayon) is extracted from Cargo.toml on every run.",
+        "technique": "Lean 4 proof (loop commutes with forgetting the analysis) + trace-replay correspondence + repeated-call / two-process digest oracle",
+    },
+    "C11": {
+        "text": "Machine-checked proof (Lean 4, every scalar type, every LU oracle) that if the residual test passes at the guesses (for every attempted subset) the solve returns the guesses bit for bit with 0 iterations and never consults the linear solver, and that any run which returned at the residual test is a fixed point of re-solving (chains of any length).",
+        "design_ref": "DESIGN.md §6 C11",
+        "note": "Tied to newton.rs by trace replay (first-iteration decision, order 'residual test before the step' also checked by the translator); the chain oracle re-solves real results up to 4 times, adding already-satisfied constraints.",
+        "technique": "Lean 4 proof (one unfolding of the loop; ghost 'stopped at residual test' flag) + trace-replay correspondence + re-solve chain oracle",
+    },
 }
